@@ -78,12 +78,6 @@ Definition importer_in_subdir (c : case) : bool :=
 Definition exists_at (c : case) (locs : list string) : bool :=
   match existing_gen (case_isfile c) locs (case_cand_names c) with [] => false | _ => true end.
 
-(* K1: importer in a sub-directory, nothing next to it, but the unchanged url exists in a load path *)
-Definition known_K1 (c : case) : bool :=
-  importer_in_subdir c
-  && negb (exists_at c [fst (split_dir (c_importer c))])
-  && exists_at c (tl (case_places c)).
-
 (* K2: importer in a sub-directory <d>/ and a candidate exists as <load path>/<d>/..,
    in another directory than the importing file's *)
 Definition known_K2 (c : case) : bool :=
@@ -94,9 +88,9 @@ Definition known_K2 (c : case) : bool :=
 
 Definition b2z (b : bool) : Z := if b then 1%Z else 0%Z.
 
-(* [corr; clause ok; known class of the input (0 none, 1 = K1, 2 = K2); number of existing targets] *)
+(* [corr; clause ok; known class of the input (0 none, 2 = K2; K1 was fixed by 3dfdada); number of existing targets] *)
 Definition run (c : case) : list Z :=
   [ corr c;
     b2z (clause_resolve c);
-    (if known_K2 c then 2 else if known_K1 c then 1 else 0)%Z;
+    (if known_K2 c then 2 else 0)%Z;
     Z.of_nat (List.length (existing_gen (case_isfile c) (case_places c) (case_cand_names c))) ].
